@@ -7,7 +7,7 @@ A_RNG = "A-RNG: rand::thread_rng().gen_range(lo..hi) returns some value in lo..h
 A_ORD = "A-ORD: the element type's Ord/PartialOrd is a lawful total order and Clone returns an equal value (lawful_ord / lawful_clone are preconditions; proved non-vacuous for u64, i64, usize)"
 A_STD = "A-STD: contracts of std functions used by the bodies (binary_search, sort_unstable, dedup, split_at_mut, Option/Vec basics) as stated in shim/"
 A_VERUS = "Verus 0.2026.09.13 + Z3 are sound; arithmetic overflow is checked by Verus on the executable text"
-A_EXTRACT = "the extractor copies bodies byte-for-byte apart from the rewrites R1-R19 listed in DESIGN.md 8a; the generated text is re-derived from /repo on every run"
+A_EXTRACT = "the extractor copies bodies byte-for-byte apart from the rewrites R1-R20 listed in DESIGN.md 8a; the generated text is re-derived from /repo on every run"
 A_ENUM = "bounded enumerations run the real crate (cfg hook on) and are complete only up to the stated bound"
 
 # witness search used when a Verus obligation of that function fails (replay enumeration name)
@@ -24,7 +24,7 @@ WITNESS = {
     "EquiSpaced::build": "strategies",
     "EquiSpaced::new": "strategies",
     "_get_many_from_sorted_mut_unchecked": "select_many",
-    "quantiles_axis_mut_inner": "quantiles",
+    "quantiles_axis_mut_inner": "quantiles", "ArrL::quantiles_axis_mut": "quantiles", "ArrL::quantile_axis_mut": "quantiles", "ArrL::quantile_mut": "quantiles", "ArrL::quantiles_mut": "quantiles",
     "fold_skipnan": "skipnan", "indexed_fold_skipnan": "skipnan", "visit_skipnan": "skipnan",
     "inner_weighted_var": "moments", "weighted_var": "moments", "weighted_std": "moments", "horner_method": "moments", "moments": "moments",
     "entropy": "entropy", "kl_divergence": "entropy", "cross_entropy": "entropy",
@@ -148,7 +148,7 @@ PROPS.update({
     "C01": {
         "level": "proof",
         "level_text": "decomposed along the call chain of quantiles_axis_mut: (1) selection - Verus proves on the extracted src/sort.rs bodies that the value fetched for index k is the k-th order statistic of the lane under every pivot sequence (C02 cone); (2) strategy kernels - loop-free full-domain Kani harnesses on the real Interpolate impls prove for i8..i64/u8..u64 that Lower/Higher return exactly the requested neighbour and that Midpoint lies in [lower, higher] within one unit of the exact midpoint whenever the spread is representable (complete proofs); (3) index pair and Nearest - Kani with q fully symbolic, len enumerated (bounded); (4) the glue of quantiles_axis_mut (q validation, Zip over lanes, IndexMap read-back, shapes, request order) is outside both verifiers and is enumerated on the real API against a sort-based oracle (bounded)",
-        "level_note": "ALSO PROVED (unit qglue): the inner function quantiles_axis_mut of src/quantile/mod.rs, in which every quantile routine ends, is verified from its extracted body for arrays of every dimensionality, every axis, every list of quantiles and every strategy (strategy kernels and the float index functions enter as abstract contracts; the per-lane bulk selection with the contract proved in unit sort; the Zip over pairs of lanes and the iter_mut().zip() loop are lowered mechanically, R11c/R11d): InvalidQuantile with the first offending q before EmptyInput for a zero-length axis; result shape = data shape with the axis replaced by the number of quantiles; entry t of lane j = strategy interpolation of the order statistics floor/ceil(q_t (n-1)) of that lane; every lane is left a permutation of itself. counted as proof: Verus queries of the sort unit + 11 complete Kani kernels. NOT counted (bounded): index/Nearest harnesses (len in {1..5,7,10}), Linear kernel (i8/u8 only, thorough), enum:quantiles (lanes <= 4/5, 4 element types, shapes up to 4-D, 5 strategies, layouts, pivot scripts). Not decided: Midpoint/Linear on N64 beyond a 1e-9 relative tolerance; 2 recorded findings (signed spread overflow in Midpoint and Linear)",
+        "level_note": "ALSO PROVED (unit qglue): the public entry points quantiles_axis_mut, quantile_axis_mut (one value per lane through index_axis_move), quantile_mut and quantiles_mut (1-D) are verified as callers of the inner function quantiles_axis_mut of src/quantile/mod.rs, which itself is verified from its extracted body for arrays of every dimensionality, every axis, every list of quantiles and every strategy (strategy kernels and the float index functions enter as abstract contracts; the per-lane bulk selection with the contract proved in unit sort; the Zip over pairs of lanes and the iter_mut().zip() loop are lowered mechanically, R11c/R11d): InvalidQuantile with the first offending q before EmptyInput for a zero-length axis; result shape = data shape with the axis replaced by the number of quantiles; entry t of lane j = strategy interpolation of the order statistics floor/ceil(q_t (n-1)) of that lane; every lane is left a permutation of itself. counted as proof: Verus queries of the sort unit + 11 complete Kani kernels. NOT counted (bounded): index/Nearest harnesses (len in {1..5,7,10}), Linear kernel (i8/u8 only, thorough), enum:quantiles (lanes <= 4/5, 4 element types, shapes up to 4-D, 5 strategies, layouts, pivot scripts). Not decided: Midpoint/Linear on N64 beyond a 1e-9 relative tolerance; 2 recorded findings (signed spread overflow in Midpoint and Linear)",
         "technique": "Verus contracts on extracted selection code + loop-free Kani kernels on the real interpolation strategies; bounded enumeration of the n-D glue",
         "design_ref": "DESIGN.md 4 (C01)",
         "verus": [("sort", "N"), ("qglue", "N")],
@@ -163,7 +163,7 @@ PROPS.update({
     "C19": {
         "level": "proof",
         "level_text": "the order laws follow from facts established per component: selection returns order statistics whatever the pivots and whatever permutation of the lane is stored (Verus, C02 cone: the contract speaks about the multiset only); the index pair is monotone in q, adjacent, equal exactly when the fraction is 0, 0 at q=0 and N-1 at q=1 (Kani, q symbolic, len enumerated: bounded); kernels: Lower/Higher exact, Midpoint within [lower, higher] and equal to both when they coincide (Kani complete). The API-level laws (monotone in q, min/max at 0/1, Lower <= others <= Higher, coincidence at integral positions, permutation invariance, commuting with increasing relabellings) are additionally enumerated without an oracle",
-        "level_note": "ALSO PROVED (unit qglue): the inner function quantiles_axis_mut of src/quantile/mod.rs, in which every quantile routine ends, is verified from its extracted body for arrays of every dimensionality, every axis, every list of quantiles and every strategy (strategy kernels and the float index functions enter as abstract contracts; the per-lane bulk selection with the contract proved in unit sort; the Zip over pairs of lanes and the iter_mut().zip() loop are lowered mechanically, R11c/R11d): InvalidQuantile with the first offending q before EmptyInput for a zero-length axis; result shape = data shape with the axis replaced by the number of quantiles; entry t of lane j = strategy interpolation of the order statistics floor/ceil(q_t (n-1)) of that lane; every lane is left a permutation of itself. counted as proof: sort-unit Verus queries + complete kernels; bounded: index harnesses, enum:qlaws (lanes <= 4/5 over i32, i8, N64; all permutations for N <= 4), enum:quantiles. Float Linear 'up to one ulp': not decided",
+        "level_note": "ALSO PROVED (unit qglue): the public entry points quantiles_axis_mut, quantile_axis_mut (one value per lane through index_axis_move), quantile_mut and quantiles_mut (1-D) are verified as callers of the inner function quantiles_axis_mut of src/quantile/mod.rs, which itself is verified from its extracted body for arrays of every dimensionality, every axis, every list of quantiles and every strategy (strategy kernels and the float index functions enter as abstract contracts; the per-lane bulk selection with the contract proved in unit sort; the Zip over pairs of lanes and the iter_mut().zip() loop are lowered mechanically, R11c/R11d): InvalidQuantile with the first offending q before EmptyInput for a zero-length axis; result shape = data shape with the axis replaced by the number of quantiles; entry t of lane j = strategy interpolation of the order statistics floor/ceil(q_t (n-1)) of that lane; every lane is left a permutation of itself. counted as proof: sort-unit Verus queries + complete kernels; bounded: index harnesses, enum:qlaws (lanes <= 4/5 over i32, i8, N64; all permutations for N <= 4), enum:quantiles. Float Linear 'up to one ulp': not decided",
         "technique": "Verus selection contracts + Kani kernel/index harnesses; oracle-free bounded law enumeration",
         "design_ref": "DESIGN.md 4 (C19)",
         "verus": [("sort", "N"), ("qglue", "N")],
